@@ -1,5 +1,5 @@
 (** Shared lemmas of the tie by regeneration (DESIGN 11.7): nothing here depends on the generated file. *)
-From WT Require Import Base.Wrap.
+From WT Require Import Base.Wrap Model.Codec.
 
 
 Definition is_u32 (x : Z) : Prop := 0 <= x < 2^32.
@@ -64,3 +64,9 @@ Ltac tie_norm :=
 Ltac tie_arith :=
   cbv zeta in *; unfold is_u32, is_i32 in *; intros; tie_cases; tie_norm; tie_abs_rem;
   unfold u32, i32, i64, u64 in *; tie_cases; lia.
+
+(** * archive descriptions as the tuples the translation uses, and what "a value of its Go types" means for one *)
+Definition tup (a : ainfo) : Z * Z * Z := (ai_off a, ai_step a, ai_n a).
+Definition typed (a : ainfo) : Prop := is_u32 (ai_off a) /\ is_i32 (ai_step a) /\ is_u32 (ai_n a).
+Lemma u64_small x : 0 <= x < 2^64 -> u64 x = x.
+Proof. intros. unfold u64. lia. Qed.
